@@ -27,6 +27,7 @@ import (
 	"github.com/bufbuild/buf/private/pkg/storage"
 	"github.com/bufbuild/buf/private/pkg/storage/storageutil"
 	"github.com/bufbuild/buf/private/pkg/syserror"
+	"github.com/bufbuild/buf/private/pkg/verifhook"
 )
 
 // errNotDir is the error returned if a path is not a directory.
@@ -201,6 +202,7 @@ func (b *bucket) Put(ctx context.Context, path string, options ...storage.PutOpt
 	if err != nil {
 		return nil, err
 	}
+	verifhook.Point(ctx, "os.put.created", file.Name(), finalPath)
 	return newWriteObjectCloser(
 		file,
 		finalPath,
@@ -374,7 +376,11 @@ func newWriteObjectCloser(
 }
 
 func (w *writeObjectCloser) Write(p []byte) (int, error) {
+	p, hookErr := verifhook.Shorten(w.file.Name(), p)
 	n, err := w.file.Write(p)
+	if hookErr != nil && err == nil {
+		err = hookErr
+	}
 	if err != nil {
 		w.writeErr.Store(err)
 	}
@@ -391,6 +397,7 @@ func (w *writeObjectCloser) SetLocalPath(string) error {
 
 func (w *writeObjectCloser) Close() error {
 	err := toStorageError(w.file.Close())
+	err = verifhook.Fault(nil, "os.close", w.file.Name(), err)
 	// This is an atomic write operation - we need to rename to the final path
 	if w.path != "" {
 		atomicWriteErr := errors.Join(w.writeErr.Load(), err)
@@ -398,9 +405,11 @@ func (w *writeObjectCloser) Close() error {
 		if atomicWriteErr != nil {
 			return toStorageError(errors.Join(atomicWriteErr, os.Remove(w.file.Name())))
 		}
+		verifhook.Point(nil, "os.atomic.beforeRename", w.file.Name(), w.path)
 		if err := os.Rename(w.file.Name(), w.path); err != nil {
 			return toStorageError(errors.Join(err, os.Remove(w.file.Name())))
 		}
+		verifhook.Point(nil, "os.atomic.afterRename", w.file.Name(), w.path)
 	}
 	return err
 }
